@@ -86,7 +86,10 @@ def id_typestate(prog, rep, fi, loop):
                 has_part = True
     repl_inserts = [s for s in sql_sites(prog) if s.fi.short == "SqliteStorage.replace" and s.stmt.kind == "insert"]
     repl_updates = [s for s in sql_sites(prog) if s.fi.short == "SqliteStorage.replace" and s.stmt.kind == "update"]
-    sink_update_only = has_part and not repl_inserts and bool(repl_updates) and "self.replace(" in norm(im.node)
+    # (whatever test picks them: a partition by `id is not None` or by any other condition -- e.g. "id already stored
+    # somewhere" -- sends some id-bearing events to the UPDATE; only id-less events are certain to be inserted)
+    sink_update_only = not repl_inserts and bool(repl_updates) and "self.replace(" in norm(im.node)
+    rep.extra["id_partition_recognised"] = has_part
     rep.extra["id_typestate_facts"] = {"source_events_carry_ids": bool(src_has_id), "sink_updates_only_for_id_bearing": bool(sink_update_only)}
     sinks = [c for c in ast.walk(loop) if isinstance(c, ast.Call) and norm(c.func) in ("datastore.insert_many", "datastore.insert_one")]
     if not sinks:
@@ -302,6 +305,37 @@ def fold(e, env, prog, fi):
     return None
 
 
+def legacy_file_opened(prog, rep):
+    """the store object the migration reads from must be connected to the legacy file it computed: the peewee database handle
+    is one module-level object shared by all PeeweeStorage instances, so the constructor has to point it at ITS file every time"""
+    rep.rule("LEGACY-OPEN", "PeeweeStorage.__init__ points the (shared, module-level) database handle at the file it resolved on every path: a call <handle>.init(<the file path variable>) dominates every <handle>.connect() and the normal exit, and connect() does not ask to reuse an open connection")
+    fi = prog.func("PeeweeStorage.__init__")
+    g = cfg_of(fi)
+    fp = "filepath" if "filepath" in fi.params else None
+    inits = [c for c in prog.all_calls(fi) if isinstance(c.func, ast.Attribute) and c.func.attr == "init" and norm(c.func.value) in ("self.db", "_db", "db")]
+    conns = [c for c in prog.all_calls(fi) if isinstance(c.func, ast.Attribute) and c.func.attr == "connect" and norm(c.func.value) in ("self.db", "_db", "db")]
+    if not inits:
+        rep.violation("LEGACY-OPEN", fi.short, "<handle>.init(file)", "the constructor never points the shared database handle at its file", fi.loc())
+        return
+    good = [c for c in inits if c.args and fp is not None and norm(c.args[0]) == fp]
+    rep.check(bool(good), "LEGACY-OPEN", fi.short, "init argument", f"the resolved `{fp}`", f"the handle is initialised with `{norm(inits[0].args[0]) if inits[0].args else ''}`, not the file path the constructor resolved", fi.loc(inits[0]))
+    if not good:
+        return
+    ni = {g.node_of(c) for c in good}
+    reach = g.reach_avoiding([g.entry], avoid=frozenset(ni), include_start=True, skip_exc=True)
+    bad = None
+    for c in conns:
+        if g.node_of(c) in reach:
+            bad = bad or (c, "is reached on a path that did not initialise the handle")
+        for k in c.keywords:
+            if k.arg == "reuse_if_open" and not (isinstance(k.value, ast.Constant) and not k.value.value):
+                bad = bad or (c, "asks to reuse a connection that is already open")
+    if bad is None and g.exit in reach:
+        bad = (good[0], "does not lie on every path to the constructor's normal exit")
+    rep.check(bad is None, "LEGACY-OPEN", fi.short, "every path initialises the handle before connecting", f"{len(good)} init call(s) dominate {len(conns)} connect call(s)", (f"`{norm(bad[0])[:60]}` {bad[1]}: once any PeeweeStorage has been opened in the process the shared handle keeps pointing at THAT file, so the store the migration opens for the legacy database silently reads another profile's file (or the wrong one of testing / production) and the new store is filled from it" if bad else ""), fi.loc(bad[0]) if bad else fi.loc())
+    rep.floor("connect() calls in PeeweeStorage.__init__", len(conns), 1)
+
+
 def trigger(prog, rep):
     rep.rule("TRIGGER", "SqliteStorage.__init__ calls check_for_migration(self) on the path (new db file and no custom filepath), after the CREATE statements and their commit; check_for_migration builds the legacy file name with the same -testing suffix rule and version as PeeweeStorage.__init__ (both string expressions are folded for testing in {True, False} and compared), opens the legacy store with the same testing flag, and migrates when a matching file exists")
     init = prog.func("SqliteStorage.__init__")
@@ -453,12 +487,15 @@ def check(prog, rep):
     visit_all(prog, rep, fi, loops)
     legacy_read_only(prog, rep, fi)
     trigger(prog, rep)
+    legacy_file_opened(prog, rep)
     # "same instant, duration and data": what the legacy store decodes and the new store encodes (tables and scale constants)
     codec_sqlite(prog, rep)
     codec_peewee(prog, rep)
 
 
 VARIANTS = [
+    ("B shared peewee handle initialised only while still deferred", "aw_datastore/storages/peewee.py", "        self.db.init(filepath)\n", "        if self.db.deferred:\n            self.db.init(filepath)\n", "LEGACY-OPEN"),
+    {"name": "B insert_many upserts by a global id-exists test and the migration keeps the legacy ids", "edits": [("aw_datastore/migration.py", "        for event in bucket_events:\n            event.id = None\n", ""), ("aw_datastore/storages/sqlite.py", "        events_upsert = [e for e in events if e.id is not None]", "        known = {e.id for e in events if e.id is not None and self.conn.execute(\"SELECT 1 FROM events WHERE id = ?\", [e.id]).fetchone() is not None}\n        events_upsert = [e for e in events if e.id in known]"), ("aw_datastore/storages/sqlite.py", "        events_insert = [e for e in events if e.id is None]", "        events_insert = [e for e in events if e.id not in known]")], "expect": "ID-TYPESTATE"},
     ("B data not forwarded (original defect)", MG, '            bucket["name"],\n            bucket["data"],\n', '            bucket["name"],\n', "COVERAGE"),
     ("B hostname forwarded as client", MG, '            bucket["client"],\n            bucket["hostname"],\n', '            bucket["hostname"],\n            bucket["client"],\n', "COVERAGE"),
     ("B ids not cleared (original defect)", MG, "        for event in bucket_events:\n            event.id = None\n", "", "ID-TYPESTATE"),
